@@ -230,8 +230,14 @@ Fixpoint loop_iter (body : dstate -> dres) (k : nat) (head : dstate) : dres :=
        | S k' => loop_iter body k' head'
        end.
 
+(* the options of a nested action: what the caller set, everything else clear - or, when the
+   action was built by a helper whose settings the translator could not carry over (marker "*"),
+   everything else unknown *)
 Definition nested_env (e : denv) (s : dstate) (sets : list (string * tv)) : denv :=
-  mkDE (fun f => match find (fun kv => String.eqb (fst kv) f) sets with Some kv => snd kv | None => TF end)
+  mkDE (fun f => match find (fun kv => String.eqb (fst kv) f) sets with
+                 | Some kv => snd kv
+                 | None => if existsb (fun kv => String.eqb (fst kv) "*") sets then TU else TF
+                 end)
        (OptIs "") (de_spell e) true.
 
 Section Walk.
